@@ -244,6 +244,17 @@ def judge_files(run, cases, rows, pid):
         if c.get("error") or c["id"] not in rows:
             continue
         r = rows[c["id"]]
+        # what NGINX runs is what it read at the last reload: after every event (the queue is empty, reloads are not held
+        # back) the files on disk must have been reloaded
+        for i, st in enumerate(c["ctl"]):
+            if "served" in st and (st["served"] != st["files"] or st.get("pt_stale")):
+                ev = c["histories"][0]["events"][i]
+                run.failing({"kind": "files-not-reloaded", "level": "controller", "event_kind": ev["spec"]["kind"]}, [c],
+                            "%s: after step %d of case %d (%s %s %s/%s through the real lbc.sync, processChanges and Configurator) NGINX still runs the files of the last reload, which are not "
+                            "the files that exist now: running %s, on disk %s%s" % (pid, i + 1, c["id"], ev["op"], ev["spec"]["kind"], ev["spec"].get("ns"), ev["spec"].get("name"),
+                                                                                    json.dumps(st["served"]), json.dumps(st["files"]), "; the TLS passthrough map changed too" if st.get("pt_stale") else ""),
+                            theorem="harness arb (recMgr.Reload snapshot)")
+                break
         if r[DFILES] != 0:
             st = c["ctl"][r[DFILES] - 1]
             ev = c["histories"][0]["events"][r[DFILES] - 1]
